@@ -18,6 +18,36 @@ from .kinds import Kinds, count_of, node_of, nodes_of
 
 
 # ---------------------------------------------------------------------------
+# loops over all nodes of a graph
+# ---------------------------------------------------------------------------
+
+
+def node_loop(li: LoopInfo):
+    """(G, index term or None, node term) when the for-loop visits every node of graph G once, in
+    ascending order: `for i in range(G.n_nodes)`, `for n in G.nodes`, `for i, n in enumerate(G.nodes)`."""
+    if li.kind != "for" or li.domain is None:
+        return None
+    dom = li.domain
+    if dom[0] == "call" and dom[1] == ("builtin", "range") and not dom[3]:
+        args = dom[2]
+        if len(args) == 1 or (len(args) == 2 and args[0] == ("const", 0)):
+            g = count_of(args[-1])
+            if g is not None:
+                ix = ("iter", dom, li.lid)
+                return g, ix, ("idx", ("attr", g, "nodes"), ix)
+        return None
+    g = nodes_of(dom)
+    if g is not None:
+        return g, None, ("iter", dom, li.lid)
+    if dom[0] == "call" and dom[1] == ("builtin", "enumerate") and len(dom[2]) == 1 and not dom[3]:
+        g = nodes_of(dom[2][0])
+        if g is not None:
+            ix = ("iterproj", dom, li.lid, (0,))
+            return g, ix, ("idx", ("attr", g, "nodes"), ix)
+    return None
+
+
+# ---------------------------------------------------------------------------
 # arc-weight selector
 # ---------------------------------------------------------------------------
 
@@ -239,7 +269,21 @@ def find_competitions(w: Walker, kinds: Kinds = None) -> List[Competition]:
                     else:
                         inner.append((g, pol))
                 inner = tuple(inner)
-                comp.updates.append(UpdateSite(e, e.args[0], e.args[1], inner, nl))
+                hp = ("idx", ("attr", heap, "cost"), rem.value)
+
+                def unold(t, _hp=hp, _w=w):
+                    """H.cost[p] copied into a local before the neighbour loop: the only writers of
+                    Heap.cost in between are heap API calls (H.update(q, .)), which never lower the
+                    key of the node just removed under an improvement test, so the copy is current."""
+                    def f(s):
+                        if s[0] == "old" and s[1] == _hp and _w.old_cause.get(s[2], {"store"}) <= {
+                                "call:update", "call:insert", "call:remove"}:
+                            return _hp
+                        return None
+                    return rewrite(t, f)
+
+                inner = tuple((unold(g), pol) for g, pol in inner)
+                comp.updates.append(UpdateSite(e, unold(e.args[0]), unold(e.args[1]), inner, nl))
         comps.append(comp)
     return comps
 
@@ -301,6 +345,9 @@ def neighbour_domain(comp: Competition, u: UpdateSite) -> Tuple[str, Optional[Te
         return ("unknown", None)
     q = strip_int(u.q)
     dom = nl.domain
+    nlp = node_loop(nl)
+    if nlp is not None and nlp[1] is not None and q == nlp[1]:
+        return ("all", nlp[0])
     if q[0] == "iter" and q[2] == nl.lid:
         if dom[0] == "call" and dom[1] == ("builtin", "range"):
             args = dom[2]
@@ -385,3 +432,74 @@ def loop_signature(comp: "Competition", lo: int = None, hi: int = None) -> List[
             guards, len(e.loops) - len(comp.loop.loops),
         ))
     return sig
+
+
+def competition_summary(comp: "Competition") -> dict:
+    """What a competition loop *does*, independent of how it is spelled: policy, seeding facts,
+    removal bookkeeping, and per relaxation site the neighbour domain, candidate form, acceptance
+    relation, guard facts and the stores of the accepted branch, with heap / removed node / neighbour /
+    seeding index renamed to H / p / q / i.  Two loops with equal summaries make the same decisions on
+    every input, ties included (iteration orders are part of the summary)."""
+    from .ir import facts
+
+    w = comp.walker
+
+    def renamer(extra):
+        def f(t):
+            if t == comp.heap:
+                return ("free", "H")
+            if t == comp.p:
+                return ("free", "p")
+            for a, b in extra:
+                if t == a:
+                    return ("free", b)
+            if t[0] == "old":
+                return rewrite(t[1], f)
+            if t[0] == "sel":
+                s3 = as_selector(t)
+                if s3 is not None:
+                    return ("call", ("free", "W"), (rewrite(s3[1], f), rewrite(s3[2], f)), ())
+            return None
+        return f
+
+    out = {"policy": comp.policy, "graph": show(comp.graph) if comp.graph else None}
+    # seeding
+    before = [e for e in w.events if e.seq < comp.loop.first_seq]
+    ins = [e for e in before if e.kind == "call" and e.name == "insert" and e.target == ("attr", comp.heap, "insert")]
+    seeds = []
+    for e in ins:
+        i = e.args[0] if e.args else None
+        f = renamer([(i, "i")] if i is not None else [])
+        dom = None
+        if e.loops:
+            nl = node_loop(w.loops[e.loops[-1]])
+            dom = ("all", show(nl[0])) if nl is not None else show(w.loops[e.loops[-1]].domain)
+        stores = sorted(
+            (show(rewrite(x.target, f)), show(rewrite(x.value, f)), tuple(sorted(show(rewrite(g, f)) for g in facts(x.guards))))
+            for x in before if x.kind == "store" and x.loops == e.loops and x.seq > (w.loops[e.loops[-1]].first_seq - 1 if e.loops else 0))
+        seeds.append((dom, tuple(sorted(show(rewrite(g, f)) for g in facts(e.guards))), tuple(stores)))
+    out["seeding"] = seeds
+    base = len(facts(comp.loop.guards)) + 1
+    top = []
+    for e in comp.top:
+        if e.kind == "store" or (e.kind == "call" and e.name in ("append", "insert", "update")):
+            f = renamer([])
+            top.append((e.kind, e.name if e.kind == "call" else e.aug, show(rewrite(e.target, f)),
+                        show(rewrite(e.value, f)) if e.kind == "store" else tuple(show(rewrite(a, f)) for a in e.args),
+                        tuple(sorted(show(rewrite(g, f)) for g in facts(e.guards)[base:]))))
+    out["removal"] = sorted(top)
+    sites = []
+    for u in comp.updates:
+        f = renamer([(u.q, "q")])
+        acc = acceptance(comp, u)
+        dom = neighbour_domain(comp, u)
+        branch = stores_in_branch(comp, u)
+        sites.append({
+            "domain": (dom[0], show(dom[1]) if dom[1] is not None else None),
+            "candidate": show(rewrite(u.value, f)),
+            "acceptance": acc[1] if acc else None,
+            "guards": tuple(sorted(show(rewrite(g if pol else mk_not(g), f)) for g, pol in u.inner_guards)),
+            "stores": tuple(sorted((show(rewrite(e.target, f)), show(rewrite(e.value, f))) for e in branch)),
+        })
+    out["sites"] = sites
+    return out
